@@ -176,7 +176,7 @@ theorem MultiIter.kind : (t : Rel) → t.MultiIter → t.engine.kind = .iter
   | .unary _ t _, h => MultiIter.kind t h
   | .binary _ l _ _, h => MultiIter.kind l h.1
   | .mat _ _ t, h => h.1
-  | .transfer _ _ _, h => h.2.1
+  | .transfer _ _ _, h => h.2
   | .select .., h => by cases h
 
 /-- What processing achieves. -/
@@ -215,9 +215,9 @@ theorem process_multi_iter (σ : Leaves) :
       exact ⟨reg, RegExt.refl _ _, T, rfl, fun _ => Iff.rfl, rfl, Nat.le_refl _⟩
   | .select .., _, _, _, _, hm, _, _, _, _, _, _ => by cases hm
   | .mat oid name target, fuel, matAs, s, reg, hm, T, hf, res, b, s', h => by
-    obtain ⟨hek, hp, hnji, hnz⟩ := hm
+    obtain ⟨hek, hp⟩ := hm
     obtain ⟨s'', h', P⟩ := process_plain_iter σ reg target.engine hek (Rel.mat oid name target) fuel matAs s
-      ⟨hp, hnji, hnz⟩ T.iterOK T.wf T.truthful T.kd T.regOK T.store T.sq hf
+      hp T.iterOK T.wf T.truthful T.kd T.regOK T.store T.sq hf
     rw [h'] at h
     obtain ⟨h1, h2⟩ := run_ok_inj h
     injection h1 with h1 _
@@ -396,9 +396,31 @@ theorem process_multi_iter (σ : Leaves) :
     cases fuel with
     | zero => simp [Rel.size] at hf
     | succ n =>
-      obtain ⟨hmt, hdk, hnji, hnz⟩ := hm
+      obtain ⟨hmt, hdk⟩ := hm
       have Tt : TreeInv σ reg target s := ⟨T.iterOK.1, T.wf, T.truthful, T.kd, T.regOK.2, T.below.2, T.store, T.sq⟩
       unfold processRec at h
+      -- a statically trivial transfer: the engine's trivial payload on a new node, the target untouched
+      have htrivial : ∀ (ji : Bool) (rows : List Row), sem σ target = rows →
+          rows = (if ji then [Row.empty] else []) →
+          (Except.ok (Res.new (Rel.transfer s.nextTemp dest target), matAs.isSome),
+              ({ s with nextTemp := s.nextTemp + 1 } : ProcState).attach s.nextTemp
+                (.iter (.mapping [] (if ji then [Row.empty] else [])))) =
+            ((Except.ok (res, b) : Except Err (Res × Bool)), s') →
+          ∃ reg', RegExt reg reg' s.nextTemp ∧ ProcMultiOK σ reg' (Rel.transfer oid dest target) s res s' := by
+        intro ji rows hsem hrows hh
+        obtain ⟨h1, h2⟩ := run_ok_inj hh
+        injection h1 with h1 _
+        subst h1; subst h2
+        refine ⟨regSet reg s.nextTemp (sem σ target), regSet_ext _ _ _, ?_, rfl, fun _ => Iff.rfl, rfl, ?_⟩
+        · refine ⟨T.iterOK, T.wf, T.truthful, T.kd, ⟨by simp [regSet], ?_⟩, ⟨?_, ?_⟩, ?_, T.sq⟩
+          · exact RegOK_ext σ (regSet_ext _ _ _) _ T.regOK.2 T.below.2
+          · show s.nextTemp < s.nextTemp + 1
+            omega
+          · exact markersBelow_mono (by show s.nextTemp ≤ s.nextTemp + 1; omega) _ T.below.2
+          · refine StoreOK_set T.store s.nextTemp _ _ ?_ (by rw [hsem, hrows]; rfl)
+            cases ji <;> simp [ItOK]
+        · show s.nextTemp ≤ s.nextTemp + 1
+          omega
       cases hc : (s.payloadOf (Rel.transfer oid dest target)).isSome with
       | true =>
         simp [bind, ExceptT.bind, ExceptT.mk, ExceptT.bindCont, StateT.bind, get, getThe, MonadStateOf.get,
@@ -409,6 +431,22 @@ theorem process_multi_iter (σ : Leaves) :
         subst h1; subst h2
         exact ⟨reg, RegExt.refl _ _, T, rfl, fun _ => Iff.rfl, rfl, Nat.le_refl _⟩
       | false =>
+       by_cases hji : (Rel.transfer oid dest target).isJoinIdentity = true
+       · simp [bind, ExceptT.bind, ExceptT.mk, ExceptT.bindCont, StateT.bind, get, getThe, MonadStateOf.get,
+           StateT.get, set, StateT.set, modify, modifyGet, MonadStateOf.modifyGet, StateT.modifyGet,
+           MonadState.modifyGet, liftM, monadLift, MonadLift.monadLift, ExceptT.lift, ExceptT.run, StateT.run, pure,
+           ExceptT.pure, StateT.pure, Functor.map, StateT.map, hc, hji, trivialPayload, hdk, freshTemp, Res.get] at h
+         exact htrivial true _ (joinIdentity_sound σ target T.wf T.truthful (by simpa [Rel.isJoinIdentity, Rel.columns, Rel.maxRows, Rel.minRows] using hji)) rfl h
+       · by_cases hmz : (Rel.transfer oid dest target).maxRows = some 0
+         · simp [bind, ExceptT.bind, ExceptT.mk, ExceptT.bindCont, StateT.bind, get, getThe, MonadStateOf.get,
+             StateT.get, set, StateT.set, modify, modifyGet, MonadStateOf.modifyGet, StateT.modifyGet,
+             MonadState.modifyGet, liftM, monadLift, MonadLift.monadLift, ExceptT.lift, ExceptT.run, StateT.run, pure,
+             ExceptT.pure, StateT.pure, Functor.map, StateT.map, hc, hji, hmz, trivialPayload, hdk, freshTemp,
+             Res.get] at h
+           exact htrivial false _ (maxRows_zero_sound σ target T.wf T.truthful (by simpa [Rel.maxRows] using hmz)) rfl h
+         · have hnji : (Rel.transfer oid dest target).isJoinIdentity = false := by simpa using hji
+           have hnz : (Rel.transfer oid dest target).maxRows ≠ some 0 := hmz
+           exact (by
         cases hr0 : (processRec σ n target none).run.run s with
         | mk r1 s1 =>
           have hr := hr0
@@ -451,7 +489,7 @@ theorem process_multi_iter (σ : Leaves) :
               exact P.cols u
             · show s.nextTemp ≤ s2.nextTemp + 1
               have := P.temp
-              omega
+              omega)
 
 /-- **Process, then execute** (several iteration engines): whenever `Processor.process` succeeds on a tree of
 leaves, unary operations, chains, transfers between iteration engines and materializations of single-engine
